@@ -33,13 +33,17 @@ MANIFEST = {
              "differential check of every datagram, its virtual send time, destination, the randrange arguments and what "
              "a real SsdpListener reports; the same judge runs on the implementation's observations."),
     "note": ("Trusted: Lean kernel + standard axioms; the virtual-time loop, fake sockets, randrange stand-in; aiohttp "
-             "header parsing inside the real listener is exercised, not modelled; ASCII text only; the "
-             "ALWAYS_REPLY_WITH_ROOT_DEVICE option and custom header options are outside the model; real sockets/"
-             "multicast are not covered."),
+             "header parsing inside the real listener is exercised, not modelled; ASCII text only; the always-root "
+             "responder option is a parameter of model, judge and theorems (both settings generated); the *_OPTION_HEADERS "
+             "option constants exist in server.py but are never read - the harness passes them and the byte-level check "
+             "confirms they change nothing; the listener model is the merged C03/C04 model; real sockets/multicast are "
+             "not covered."),
     "technique": "Lean 4 proof (for all trees/targets/histories) + generated tables + model/implementation correspondence",
 }
 RULE = ("one case = one generated device class tree (0..3 embedded devices, nested to depth 3, 0..3 services each, type "
-        "versions 1..4, duplicate types among siblings, mixed letter case) + an operation sequence of M-SEARCH deliveries "
+        "versions 1..4, duplicate types among siblings, the same type at several versions, the same service type in several "
+        "devices, shared UDNs, device types equal to service types, mixed letter case; responder option always-root on/off; "
+        "custom-header options on/off) + an operation sequence of M-SEARCH deliveries "
         "(ssdp:all, rootdevice, every UDN, every device/service type at versions 0..5, foreign and malformed targets, "
         "random letter case; MX absent / 0..10 / negative / non-numeric; jitter choice min / max / random; delivered as a "
         "datagram through SsdpProtocol or directly to _on_data), clock advances, announcer start and stop; every emitted "
@@ -48,10 +52,14 @@ RULE = ("one case = one generated device class tree (0..3 embedded devices, nest
 EXHAUSTIVE = {"quick": False, "thorough": False}
 ASSUMPTIONS = [
     "all text is ASCII (Python str.lower on non-ASCII is outside the model)",
-    "device trees are well-formed in the sense of Upnp.C13.wfTree (uuid: UDNs without '::', types of the form base:version, "
-    "device-type, service-type and UDN bases pairwise different); the driver checks this on every generated tree",
-    "responder/announcer options are the defaults (no ALWAYS_REPLY_WITH_ROOT_DEVICE, no extra headers)",
-    "the server's base URI is http(s), not loopback / 169.254 (the listener rejects those by design)",
+    "device trees are in the domain Upnp.C13.wfTree: UDNs are uuid: names (any case) without '::' and not ending in ':', "
+    "every device/service type is base:canonical-decimal-version; nothing else - devices may share UDNs or types, the same "
+    "service type may occur in several devices, a device type may equal a service type (all generated); the driver checks "
+    "the domain on every tree and reports a tree outside it as a failure",
+    "siblings with the same type string collapse in UpnpDevice's dicts (services / embedded_devices keyed by type); the model "
+    "transcribes that (build) and the judge works on the instantiated tree",
+    "the server's base URI is http(s), not 127.0.0.1 / [::1] / 169.254 (the listener rejects those by design); IPv4, IPv6 "
+    "and named hosts are generated",
     "requester and multicast target are IPv4",
 ]
 TRUSTED = [
@@ -600,7 +608,7 @@ def generate(ctx: Ctx) -> List[Case]:
     cases: List[Case] = []
     for i, rec in enumerate(CORPUS):
         cases.append(run_recipe(ctx, rec, f"corpus{i}"))
-    n_trees = 5000 if ctx.thorough else 250
+    n_trees = 3000 if ctx.thorough else 150
     recipes: List[Dict[str, Any]] = []
     for ti in range(n_trees):
         tree = rand_tree(ctx.rng)
